@@ -125,6 +125,13 @@ class Native:
         self.fn = fn
 
 
+class Partial:
+    """functools.partial of an in-repo callable."""
+
+    def __init__(self, f: Any, args: list[Any], kwargs: dict[str, Any]) -> None:
+        self.f, self.args, self.kwargs = f, args, kwargs
+
+
 class Bound:
     def __init__(self, fn: FunctionInfo, self_obj: Any) -> None:
         self.fn = fn
@@ -292,8 +299,25 @@ class Interp:
                 self._assign(s.target, self.eval(s.value, env), env)
         elif isinstance(s, ast.AugAssign):
             cur = self.eval(_load(s.target), env)
-            v = self._binop(s.op, cur, self.eval(s.value, env))
-            self._assign(s.target, v, env)
+            rhs = self.eval(s.value, env)
+            if isinstance(cur, (set, list, dict)) and not isinstance(cur, tuple):
+                # augmented assignment on a mutable container works in place (`s |= t`, `l += m`): every alias of the object sees it
+                try:
+                    if isinstance(s.op, ast.BitOr) and isinstance(cur, (set, dict)):
+                        cur |= rhs
+                    elif isinstance(s.op, ast.Add) and isinstance(cur, list):
+                        cur += list(self._iterate(rhs)) if not isinstance(rhs, list) else rhs
+                    elif isinstance(s.op, ast.BitAnd) and isinstance(cur, set):
+                        cur &= rhs
+                    elif isinstance(s.op, ast.Sub) and isinstance(cur, set):
+                        cur -= rhs
+                    else:
+                        cur = self._binop(s.op, cur, rhs)
+                except NATIVE_EXC as ex:
+                    raise Raised(type(ex).__name__) from None
+                self._assign(s.target, cur, env)
+            else:
+                self._assign(s.target, self._binop(s.op, cur, rhs), env)
         elif isinstance(s, ast.If):
             self._block(s.body if self.truth(self.eval(s.test, env)) else s.orelse, env)
         elif isinstance(s, ast.For):
@@ -1009,6 +1033,8 @@ class Interp:
             return self._construct(f.cls, args, kwargs)
         if isinstance(f, Native):
             return f.fn(*args, **kwargs)
+        if isinstance(f, Partial):
+            return self.apply(f.f, [*f.args, *args], {**f.kwargs, **kwargs}, site, env)
         if isinstance(f, tuple) and len(f) == 3 and f[0] == "native":
             _tag, obj, attr = f
             try:
@@ -1189,6 +1215,17 @@ class Interp:
             return {"textwrap.dedent": _textwrap.dedent, "inspect.cleandoc": _inspect.cleandoc, "textwrap.indent": _textwrap.indent}[name](*args, **kwargs)
         if name in ("dataclasses.field", "field"):
             return ("__field__", kwargs)
+        if name in ("collections.defaultdict", "defaultdict"):
+            import collections
+
+            fac = args[0] if args else None
+            if isinstance(fac, ExtRef) and fac.name.split(".")[-1] in NATIVE_TYPES:
+                return collections.defaultdict(NATIVE_TYPES[fac.name.split(".")[-1]])
+            if fac is None:
+                return collections.defaultdict()
+            raise AnalysisError("defaultdict with a non-builtin factory not modelled")
+        if name in ("functools.partial", "partial") and args:
+            return Partial(args[0], list(args[1:]), dict(kwargs))
         if short == "suppress":
             return None
         raise AnalysisError(f"external call `{name}` not modelled by the abstract evaluator" + (f" (`{unparse(site)[:60]}`)" if site is not None else ""))
